@@ -57,51 +57,74 @@ func checkC05(c *Ctx) {
 		c.Check(okStop && w1 == nil && w2 == nil, "C05.1", "advanceView: timer restarted and last timeout forgotten on every advance", p.Pos(s.Pos()),
 			"NextView is preceded by stopTimeoutTimer and followed on every path by startTimeoutTimer and lastTimeout = nil",
 			"stop before: "+boolStr(okStop)+", restart after: "+boolStr(w1 == nil)+", lastTimeout reset: "+boolStr(w2 == nil))
-		// C05.2 leader proposes / others notify the leader
-		nk := fl.K.Key(s.Value())
+		// C05.2 leader proposes / others notify the leader. The comparison of GetLeader(new view) with the replica's id
+		// sits in advanceView, in the function holding NextView, or in another private helper below advanceView; the view
+		// given to GetLeader is tied to this NextView() result by a value slice through helper parameters and results.
 		var leaderEdgeOK, otherEdgeOK bool
 		cp := p.Method("protocol/consensus", "Proposer", "CreateProposal")
 		pr := p.Method("protocol/consensus", "Proposer", "Propose")
-		for _, b := range adv.Blocks {
-			for _, succ := range b.Succs {
-				for _, f := range fl.edgeFacts(b, succ) {
-					isLeaderCmp := (strings.Contains(f.L, "LeaderRotation).GetLeader(") && strings.Contains(f.L, nk) && strings.HasPrefix(f.R, "(*hs/core.RuntimeConfig).ID(")) ||
-						(strings.Contains(f.R, "LeaderRotation).GetLeader(") && strings.Contains(f.R, nk) && strings.HasPrefix(f.L, "(*hs/core.RuntimeConfig).ID("))
-					if !isLeaderCmp {
-						continue
-					}
-					if f.Op == "==" {
-						// leader: CreateProposal on every path; Propose after it succeeded
-						if reachAvoidBlock(succ, isReturn, isCallTo(cp)) == nil {
-							okProp := true
-							for _, cs := range callsIn(adv, false, func(cc *ssa.CallCommon) bool { return calleeIs(cc, cp) }) {
-								ck := fl.K.Key(cs.Value())
-								for _, b2 := range adv.Blocks {
-									for _, s2 := range b2.Succs {
-										for _, f2 := range fl.edgeFacts(b2, s2) {
-											if f2.Op == "==" && oneIsNil(f2) && nonNil(f2) == ck+"#1" {
-												if reachAvoidBlock(s2, isReturn, isCallTo(pr)) != nil {
-													okProp = false
+		sliceEnterHelpers, sliceProg = funcPkgPath(advRoot), p
+		for _, hf := range helperClosure(p, advRoot, 2) {
+			if funcPkgPath(hf) != funcPkgPath(advRoot) {
+				continue
+			}
+			hfl := NewFlow(p, hf)
+			// GetLeader calls of hf whose view argument is the new view
+			newViewLeader := map[string]bool{}
+			eachInstr(hf, func(in ssa.Instruction) {
+				call, ok := in.(*ssa.Call)
+				if !ok || !call.Call.IsInvoke() || call.Call.Method.Name() != "GetLeader" || len(call.Call.Args) == 0 {
+					return
+				}
+				if backwardSliceOpt(call.Call.Args[0], true, func(x ssa.Value) bool { return x == s.Value() }) {
+					newViewLeader[hfl.K.Key(call)] = true
+				}
+			})
+			if len(newViewLeader) == 0 {
+				continue
+			}
+			for _, b := range hf.Blocks {
+				for _, succ := range b.Succs {
+					for _, f := range hfl.edgeFacts(b, succ) {
+						isLeaderCmp := (newViewLeader[f.L] && strings.HasPrefix(f.R, "(*hs/core.RuntimeConfig).ID(")) ||
+							(newViewLeader[f.R] && strings.HasPrefix(f.L, "(*hs/core.RuntimeConfig).ID("))
+						if !isLeaderCmp {
+							continue
+						}
+						if f.Op == "==" {
+							// leader: CreateProposal on every path; Propose after it succeeded
+							if reachAvoidBlock(succ, isReturn, isCallTo(cp)) == nil {
+								okProp := true
+								for _, cs := range callsIn(hf, false, func(cc *ssa.CallCommon) bool { return calleeIs(cc, cp) }) {
+									ck := hfl.K.Key(cs.Value())
+									for _, b2 := range hf.Blocks {
+										for _, s2 := range b2.Succs {
+											for _, f2 := range hfl.edgeFacts(b2, s2) {
+												if f2.Op == "==" && oneIsNil(f2) && nonNil(f2) == ck+"#1" {
+													if reachAvoidBlock(s2, isReturn, isCallTo(pr)) != nil {
+														okProp = false
+													}
 												}
 											}
 										}
 									}
 								}
+								leaderEdgeOK = okProp
 							}
-							leaderEdgeOK = okProp
 						}
-					}
-					if f.Op == "!=" {
-						if reachAvoidBlock(succ, isReturn, func(in ssa.Instruction) bool {
-							ci, ok := in.(ssa.CallInstruction)
-							return ok && ci.Common().IsInvoke() && ci.Common().Method.Name() == "NewView"
-						}) == nil {
-							otherEdgeOK = true
+						if f.Op == "!=" {
+							if reachAvoidBlock(succ, isReturn, func(in ssa.Instruction) bool {
+								ci, ok := in.(ssa.CallInstruction)
+								return ok && ci.Common().IsInvoke() && ci.Common().Method.Name() == "NewView"
+							}) == nil {
+								otherEdgeOK = true
+							}
 						}
 					}
 				}
 			}
 		}
+		sliceEnterHelpers, sliceProg = "", nil
 		c.Check(leaderEdgeOK && otherEdgeOK, "C05.2", "advanceView: the new leader proposes, others send new-view to it", p.Pos(s.Pos()),
 			"when GetLeader(newView) is this replica every path calls CreateProposal and, if that succeeds, Propose; otherwise every path calls sender.NewView(leader, syncInfo)",
 			"leader path ok: "+boolStr(leaderEdgeOK)+", non-leader path ok: "+boolStr(otherEdgeOK))
